@@ -521,7 +521,7 @@ static int send_upgrade_response(struct http_connection *connection)
 		return -1;
 	}
 
-	if (unlikely(!s->sec_web_socket_key_received)) {
+	if (unlikely(!s->sec_web_socket_key_received || !s->sec_web_socket_version_received)) {
 		return -1;
 	}
 
@@ -882,6 +882,9 @@ int websocket_upgrade_on_header_value(http_parser *p, const char *at, size_t len
 
 	case HEADER_SEC_WEBSOCKET_VERSION:
 		ret = check_websocket_version(at, length);
+		if (ret == 0) {
+			s->sec_web_socket_version_received = true;
+		}
 		break;
 
 	case HEADER_SEC_WEBSOCKET_PROTOCOL:
